@@ -729,7 +729,7 @@ def gen_socket_cert():
         m = re.search(pat, src)
         if not m:
             raise ExtractError(f"C02: {what} not found")
-        return flat(fn_body(src, m.end() - 1))
+        return flat(block_at(src, m.end() - 1))
 
     # --- Socket::recv: what each dequeued message is compared with
     recv = body_of(sock, r"pub\s+async\s+fn\s+recv\s*\(\s*&mut\s+self\s*,\s*bytes\s*:\s*usize\s*\)[^{]*\{", "Socket::recv")
@@ -756,7 +756,7 @@ def gen_socket_cert():
     imp = re.search(r"impl\s+Session\s+for\s+TcpSession\s*\{", tcps)
     if not imp:
         raise ExtractError("C02: impl Session for TcpSession not found")
-    tsend = flat(fn_body(tcps, imp.end() - 1))
+    tsend = flat(block_at(tcps, imp.end() - 1))
     if "Instruction::Outgoing(message)" not in tsend:
         raise ExtractError("C02: TcpSession::send no longer enqueues Instruction::Outgoing")
     tcp_send_spawns = "spawn(" in tsend
@@ -834,8 +834,9 @@ def gen_socket_cert():
              f"def demuxReceivesUnderReadLock : Bool := {b(demux_under_read)}",
              "/-- SocketAPI::demux: exact 4-tuple, else listen binding exact-then-wildcard, store + backlog try_send before insert -/",
              f"def demuxLookupShape : Bool := {b(lookup)}",
-             f"def udpHeaderOctets : Nat := {mh.group(1)}",
              "end Elvis.Gen", ""]
+    # `udpHeaderOctets` is generated once, in Generated/Consts.lean (same source constant)
+    lines.insert(0, "import ElvisVerif.Generated.Consts")
     write_if_changed("SocketCert.lean", "\n".join(lines))
 
 
